@@ -123,7 +123,10 @@ class ImageSet(BaseObject):
         return d["data"]
 
     def __setitem__(self, fileName, data):
-        if fileName not in self._data:
+        self._setImage(fileName, data)
+
+    def _setImage(self, fileName, data, validateFileName=True):
+        if validateFileName and fileName not in self._data:
             test = fileName
             if fileName.lower().endswith(".png"):
                 test = os.path.splitext(fileName)[0]
@@ -323,7 +326,9 @@ class ImageSet(BaseObject):
         self._data = {}
         self._scheduledForDeletion = {}
         for k in data:
-            self[k] = data[k]
+            # the names come from an existing image set (possibly read from a
+            # UFO written by another tool): store them as they are
+            self._setImage(k, data[k], validateFileName=False)
 
 def _imageDict(data=None, dirty=False, digest=None, onDisk=True, onDiskModTime=None):
     return dict(data=data, digest=digest, dirty=dirty, onDisk=onDisk, onDiskModTime=onDiskModTime)
